@@ -18,6 +18,9 @@ Definition Inv (s : state) : Prop :=
 (* when the code decides to consult the index for q, q has a shape the index answers exactly *)
 Definition index_safe (q : query) : Prop := index_is_exact q = true -> exact_for_index q = true.
 
+Lemma dsl_index_safe q : dsl_query q = true -> index_safe q.
+Proof. intros Hd Hx. now apply dsl_index_exact. Qed.
+
 Hypothesis Rep_build : forall pts, wf_points pts -> Rep (ix_build pts) pts.
 
 Lemma read_prelude_rows s : st_rows (read_prelude s) = st_rows s.
